@@ -195,7 +195,11 @@ pub fn parse_choice(
         // Non-gather line at or shallower than our indent:
         // - If we haven't absorbed a same-level gather yet, this is a sibling — stop.
         // - If we have absorbed a gather, it's the post-gather continuation — include it.
-        if gather_level == 0 && body_line.indent <= choice_indent && !absorbed_gather {
+        if gather_level == 0
+            && body_line.indent <= choice_indent
+            && !absorbed_gather
+            && body_trimmed.starts_with('}')
+        {
             break;
         }
 
